@@ -81,6 +81,24 @@ class ForkInterp:
         if e is None:
             return k((), env)
         kind = e.get('k')
+        if kind == 'block' and e.get('inl') and not e.get('_inl_seen'):
+            # the body of a helper expanded at its call (verif/normalise.py): a `return` inside it continues after the call, it does not end the path
+            outer = getattr(self, '_retk', None)
+
+            def kk(v, env2):
+                saved = getattr(self, '_retk', None)
+                self._retk = outer
+                try:
+                    return k(v, env2)
+                finally:
+                    self._retk = saved
+            self._retk = kk
+            try:
+                e2 = dict(e)
+                e2['_inl_seen'] = True
+                return self.ev(e2, env, kk)
+            finally:
+                self._retk = outer
         if kind == 'block':
             stmts = list(e.get('stmts', []))
             tail = e.get('expr')
@@ -186,7 +204,16 @@ class ForkInterp:
                 sc = e['scrut']
                 inner = sc['args'][0] if sc.get('k') == 'call' and sc.get('args') else sc
                 # success side only: the error side returns Err (no shape)
-                return self.ev(inner, env, lambda v, env2: k(self.unwrap_ok(v), env2))
+                def after_try(v, env2):
+                    if v == ('err',):
+                        # `?` on a value known to be Err: this path leaves the function (or the expanded helper) with the error
+                        retk = getattr(self, '_retk', None)
+                        if retk:
+                            return retk(v, env2)
+                        self._finish(v, env2)
+                        return None
+                    return k(self.unwrap_ok(v), env2)
+                return self.ev(inner, env, after_try)
 
             def after(v, env2):
                 decided = False
@@ -237,15 +264,19 @@ class ForkInterp:
                     if l.get('k') == 'path' and l.get('res') == 'Local':
                         env2[l['path']] = OPAQUE
             # a `return` inside the loop is a path of its own
+            retk = getattr(self, '_retk', None)
             for n in walk(e):
                 if n.get('k') == 'ret' and 'v' in n:
-                    self.ev(n['v'], env2, lambda v, env3: self._finish(v, env3))
+                    self.ev(n['v'], env2, (lambda v, env3: retk(v, env3)) if retk else (lambda v, env3: self._finish(v, env3)))
             return k((), env2)
         if kind == 'ret':
+            retk = getattr(self, '_retk', None)
             if 'v' not in e:
+                if retk:
+                    return retk((), env)
                 self._finish((), env)
                 return None
-            return self.ev(e['v'], env, lambda v, env2: self._finish(v, env2))
+            return self.ev(e['v'], env, (lambda v, env2: retk(v, env2)) if retk else (lambda v, env2: self._finish(v, env2)))
         if kind == 'break':
             return None
         if kind == 'call':
